@@ -319,6 +319,16 @@ def run_model(exe, inputs, timeout=900):
     ths = [threading.Thread(target=feed, args=(i, p, ch)) for i, (p, ch) in enumerate(procs)]
     [t.start() for t in ths]
     [t.join() for t in ths]
+    # a shard that produced too few lines (killed, timed out) is run again once, on its own
+    for i in range(shards):
+        r = results[i] or []
+        if len([x for x in r if x != '']) < len(chunks[i]):
+            try:
+                q = subprocess.run(['/bin/sh', '-c', 'ulimit -s unlimited 2>/dev/null; exec "$0"', exe], input='\n'.join(chunks[i]) + '\n',
+                                   stdout=subprocess.PIPE, text=True, timeout=timeout)
+                results[i] = q.stdout.split('\n')
+            except subprocess.TimeoutExpired:
+                pass
     out = [None] * n
     for i in range(shards):
         r = results[i]
@@ -560,10 +570,19 @@ def main(argv):
     stream_names = [s for s, _ in cases]
     raw_cases = [c for _, c in cases]
     t1 = time.time()
-    impl_obs = run_impl_cases(modname, raw_cases)
-    t2 = time.time()
     minputs = [prop.model_input(c) for c in raw_cases]
     model_obs = run_model(exe, minputs) if exe else [['driver-error', 'no model']] * len(raw_cases)
+    t2 = time.time()
+    # cases on which the Model itself gives up (fuel / size guard: [-3]) are not compared, so they are not run either
+    # (an expansion that explodes costs the implementation a time-out per case); they are counted in the evidence
+    if getattr(prop, 'SKIP_WHEN_MODEL_GIVES_UP', False):
+        run_idx = [i for i, mo in enumerate(model_obs) if not (isinstance(mo, list) and mo[:1] == [-3])]
+    else:
+        run_idx = list(range(len(raw_cases)))
+    ran = run_impl_cases(modname, [raw_cases[i] for i in run_idx])
+    impl_obs = [['not-run', 'model gave up']] * len(raw_cases)
+    for i, o in zip(run_idx, ran):
+        impl_obs[i] = o
     t3 = time.time()
 
     stats = {}
@@ -703,7 +722,7 @@ def main(argv):
             pins_changed=changed_pins,
             boost=boost,
             extraction_crosscheck=vm,
-            impl_s=round(t2 - t1, 1), model_s=round(t3 - t2, 1),
+            impl_s=round(t3 - t2, 1), model_s=round(t2 - t1, 1),
         ),
         assumptions=list(getattr(prop, 'ASSUMPTIONS', [])),
         wall_s=round(time.time() - t0, 1),
